@@ -20,8 +20,8 @@ CLAIMED = {
             "the real output, in Coq) decides every in-guard program. C02_operator_tables_are_the_compilers: model/OpTables.v (opcode per operator and operand type) is PROVED equal, for every operator "
             "of the compiler's enums, every type and operand term, to the elaboration of the text the il_exec methods of BitOp / CompareOp / ArithmeticOp / BooleanOp emit; gen/OpTablesGen.v is "
             "regenerated from those methods by symbolic execution on every run (tools/vt/tr_optables.py, fail-closed).", "model + theorems (incl. regenerated operator tables) + refutation witnesses; correspondence K2; differential oracle"),
-    "C03": ("Partial. REFUTED for the faithful model (D3 widening fill bit; ?: arm conversion), witnesses by vm_compute; repaired model "
-            "correct on them. Per run: K2 on all 8x8 type pairs x {cast, initialisation, assignment, store, register target, argument, "
+    "C03": ("Partial. D3 (a signed value widened to an unsigned type was zero-extended) is REPAIRED in /repo (fix: fdfee60; Example C03_fixed_widening_fill); still refuted for the faithful model by D29 "
+            "(declaration through the old type of a re-declared name), witness by vm_compute. Per run: K2 on all 8x8 type pairs x {cast, initialisation, assignment, store, register target, argument, "
             "boolean source} + cast chains + assignment-expression chains (a = b = x); differential oracle on real outputs inside the guard. General theorem C03_casts_correct_repaired (every cast inside any "
             "pure expression, repaired model); C03_cast_table_is_the_compilers: OpTables.cast_il_exec = elaboration of what Cast.il_exec emits (regenerated on every run).", "model + theorems + refutation witnesses; K2; differential oracle"),
     "C05": ("Partial. THEOREM C05_statements_correct_repaired (proofs/StmtCorrect.v): for EVERY behaviour of the statement fragment (assignments of pure "
@@ -61,8 +61,8 @@ CLAIMED = {
             "(A2_combine_*, C4_fastcorner9*) were mistranslated by D1 and are repaired by a fix: commit (Example); the value theorem for pure "
             "expressions of any depth (C01_expressions_partial). END-TO-END THEOREM C01_covered_behaviours_correct (FragCheck.covered_correct): `covered h prog` is a boolean "
             "(sound and complete checker of the statement fragment + strict equality of the real and the repaired configuration's translation) evaluated by vm_compute on every accepted "
-            "part; where it is true the whole-transformer simulation theorem holds for the configuration the real compiler has (whole corpus: 980 of 1511 single-part behaviours; parts of "
-            "two-part definitions with the counter chained, covered_parts_correct). Instructions that use several compiler temporaries are additionally compiled at temporary-counter values "
+            "part; where it is true the whole-transformer simulation theorem holds for the configuration the real compiler has (whole corpus, thorough tier: 1298 of the 1651 accepted behaviour parts, the counter chained over the parts of "
+            "two-part definitions, covered_parts_correct). Instructions that use several compiler temporaries are additionally compiled at temporary-counter values "
             "9 / 8 / 99 (digit-length boundaries) and compared with the model; where they disagree the tdefS oracle (temporary read before written) runs on the real output. "
             "Floats and opaque plugin macros have no prescribed value (structural comparison only).",
             "model + theorems + refutation by a shipped instruction; K2 and differential oracle over the corpus"),
